@@ -791,6 +791,14 @@ pub fn c16(tier: Tier) -> i32 {
         vulns: vec![vul::str_to_vulnerability("floating_pragma"), vul::str_to_vulnerability("unsafe_erc20_operation")],
         qas: vec![qa::str_to_qa("constructor_order"), qa::str_to_qa("private_vars_leading_underscore")],
     };
+    // no vacuous alphabet symbol: every eligible NAME occurs with a content that has findings under this selection (a
+    // dropped file without findings cannot be missed)
+    for n in names_elig {
+        let covered = elig.iter().filter(|e| e.name() == n).any(|e| per_file_union(&[e.clone()], &sel).map(|f| f.values().any(|v| v.iter().any(|(_, l)| !l.is_empty()))).unwrap_or(false));
+        if !covered {
+            run.machinery(format!("alphabet error: the eligible name {:?} never carries a content with findings", n));
+        }
+    }
     fn strip_ineligible(es: &[Entry]) -> Vec<Entry> {
         es.iter()
             .filter_map(|e| match e {
